@@ -209,8 +209,25 @@ func (e *Env) extrasGate(name string) {
 	if fd == nil || fd.Body == nil || len(fd.Body.List) == 0 {
 		return
 	}
-	ok := stmtNorm(c, fd.Body.List[0]) == "if !r.Extras { return nil; }"
-	e.Run.Check("R-OBJ", name+": objects and scopes are restored only with Extras", e.Prog.Pos(fd.Pos()), ok, "first statement must be `if !r.Extras { return nil }`; found "+stmtNorm(c, fd.Body.List[0]))
+	// the first statement returns nil under a condition that holds whenever Extras is off
+	// (`!r.Extras` alone or as a disjunct)
+	ok := false
+	if is, isIf := fd.Body.List[0].(*ast.IfStmt); isIf && is.Init == nil && len(is.Body.List) == 1 && stmtNorm(c, is.Body.List[0]) == "return nil" {
+		var disj func(x ast.Expr) bool
+		disj = func(x ast.Expr) bool {
+			switch v := x.(type) {
+			case *ast.ParenExpr:
+				return disj(v.X)
+			case *ast.BinaryExpr:
+				if v.Op == token.LOR {
+					return disj(v.X) || disj(v.Y)
+				}
+			}
+			return c.ExprStr(x) == "!r.Extras"
+		}
+		ok = disj(is.Cond)
+	}
+	e.Run.Check("R-OBJ", name+": objects and scopes are restored only with Extras", e.Prog.Pos(fd.Pos()), ok, "the first statement must return nil whenever r.Extras is false; found "+stmtNorm(c, fd.Body.List[0]))
 }
 
 func init() {
